@@ -1,0 +1,16 @@
+//go:build verif
+
+package glf
+
+// VerifTables exposes the five field tables of the planner to the
+// verification harness (read-only copies).
+func VerifTables() map[string][]string {
+	cp := func(s []string) []string { return append([]string(nil), s...) }
+	return map[string][]string{
+		"header":  cp(header),
+		"block":   cp(block),
+		"receipt": cp(receipt),
+		"log":     cp(log),
+		"trace":   cp(trace),
+	}
+}
